@@ -257,6 +257,14 @@ func (c *Collection) Pull(ctx context.Context, opts ...ReadOption) <-chan *Colle
 	go func() {
 		defer close(send)
 
+		// held is, when an equivalence is configured, the value the subscriber holds for each id: the new value of the
+		// last change sent for it. A change is compared with that value and not with its own old value, so that changes
+		// which are each equivalent to their predecessor cannot add up unnoticed to a value the subscriber should see.
+		var held map[string]proto.Message
+		if c.equivalence != nil {
+			held = make(map[string]proto.Message, len(currentValues))
+		}
+
 		if len(currentValues) > 0 {
 			sort.Slice(currentValues, func(i, j int) bool {
 				return currentValues[i].id < currentValues[j].id
@@ -277,6 +285,9 @@ func (c *Collection) Pull(ctx context.Context, opts ...ReadOption) <-chan *Colle
 					return
 				case send <- change:
 				}
+				if held != nil {
+					held[change.Id] = change.NewValue
+				}
 			}
 		}
 
@@ -296,8 +307,20 @@ func (c *Collection) Pull(ctx context.Context, opts ...ReadOption) <-chan *Colle
 				continue
 			}
 			change = change.filter(filter)
-			if c.equivalence != nil && c.equivalence.Compare(change.OldValue, change.NewValue) {
-				continue
+			if held != nil {
+				base, sent := held[change.Id]
+				if !sent {
+					base = change.OldValue // nothing sent for this id yet: the subscriber is taken to know the old value
+				}
+				if c.equivalence.Compare(base, change.NewValue) {
+					held[change.Id] = base
+					continue
+				}
+				if change.NewValue == nil {
+					delete(held, change.Id)
+				} else {
+					held[change.Id] = change.NewValue
+				}
 			}
 			select {
 			case send <- change:
